@@ -5,9 +5,9 @@
 (* all-rows but not own-rows set; a second admin; user admins), spread over *)
 (* days, with a cut in the middle at which the room is exported once.       *)
 EXTENDS Naturals, Sequences, TLC, Json
-CONSTANTS MaxLen
-VARIABLES hist, cut
-gvars == <<hist, cut>>
+CONSTANTS MaxLen, WithAttack
+VARIABLES hist, cut, done
+gvars == <<hist, cut, done>>
 R(e, s, a) == [ent |-> e, self |-> s, all |-> a]
 RightSets == { <<>>, <<R("A", TRUE, FALSE)>>, <<R("*", TRUE, TRUE)>>, <<R("A", FALSE, TRUE)>>, <<R("*", TRUE, FALSE), R("A", TRUE, TRUE)>> }
 UserSets == { <<>>, <<"u2">>, <<"u2", "u3">> }
@@ -17,17 +17,23 @@ UpdMenu == { U("g1", "user", "u2", FALSE, "A", TRUE, FALSE), U("g1", "user", "u2
              U("g1", "admin", "u3", TRUE, "A", TRUE, FALSE), U("g1", "admin", "u3", FALSE, "A", TRUE, FALSE),
              U("g1", "right", "u2", TRUE, "A", FALSE, FALSE), U("g1", "right", "u2", TRUE, "A", TRUE, TRUE), U("g1", "right", "u2", TRUE, "A", FALSE, TRUE),
              U("g2", "right", "u2", TRUE, "*", TRUE, FALSE), U("g2", "right", "u2", TRUE, "B", TRUE, TRUE) }
-GInit == hist = <<>> /\ cut = FALSE
+GInit == hist = <<>> /\ cut = FALSE /\ done = FALSE
 Def == /\ hist = <<>>
        /\ \E r1 \in RightSets, u1 \in UserSets, r2 \in RightSets, ua \in {<<>>, <<"u2">>} :
             hist' = <<[op |-> "roomdef", p |-> "p1", room |-> "R1", admins |-> <<"u1">>,
                        groups |-> << [g |-> "g1", rights |-> r1, users |-> u1, uadmins |-> ua],
                                      [g |-> "g2", rights |-> r2, users |-> <<"u3">>, uadmins |-> <<>>] >>]>>
-       /\ UNCHANGED cut
-Upd == hist # <<>> /\ \E m \in UpdMenu : hist' = Append(hist, m) /\ UNCHANGED cut
-Day == hist # <<>> /\ hist[Len(hist)].op # "day" /\ hist' = Append(hist, [op |-> "day"]) /\ UNCHANGED cut
-Cut == hist # <<>> /\ ~cut /\ cut' = TRUE /\ hist' = Append(hist, [op |-> "cut"])
-GNext == Def \/ Upd \/ Day \/ Cut
+       /\ UNCHANGED <<cut, done>>
+Upd == hist # <<>> /\ ~done /\ \E m \in UpdMenu : hist' = Append(hist, m) /\ UNCHANGED <<cut, done>>
+Day == hist # <<>> /\ ~done /\ hist[Len(hist)].op # "day" /\ hist' = Append(hist, [op |-> "day"]) /\ UNCHANGED <<cut, done>>
+Cut == hist # <<>> /\ ~done /\ ~cut /\ cut' = TRUE /\ hist' = Append(hist, [op |-> "cut"]) /\ UNCHANGED done
+\* C07: the history ends with one adversarial candidate definition (then an honest one)
+Kinds == {"user_to_admin", "self_admin", "self_right", "self_user", "add_user", "self_uadmin", "drop_entry", "alter_entry", "honest"}
+Attack == /\ WithAttack /\ hist # <<>> /\ ~done /\ done' = TRUE /\ Len(hist) >= MaxLen - 2
+          /\ \E k \in Kinds, by \in {"u2", "u3"}, g \in {"g1", "g2"} :
+               hist' = Append(hist, [op |-> "forge", kind |-> k, by |-> by, g |-> g, user |-> "u3"])
+          /\ UNCHANGED cut
+GNext == Def \/ Upd \/ Day \/ Cut \/ Attack
 GSpec == GInit /\ [][GNext]_gvars
-Emit == Len(hist) # MaxLen \/ PrintT(<<"SCN", ToJson(hist)>>)
+Emit == (IF WithAttack THEN ~done ELSE Len(hist) # MaxLen) \/ PrintT(<<"SCN", ToJson(hist)>>)
 =============================================================================
